@@ -171,6 +171,10 @@ def between (g : Graph) (w : View) (s d : Node) : Option (List Node) :=
 
 end Graph
 
+/-- the calls the engine makes into user-supplied collaborators (event managers, artifact store) -/
+inductive Cb | nstart | ncomplete | save | pstart | pcomplete
+  deriving DecidableEq, Repr, Inhabited
+
 /-- a program: built graph + per-node configuration + node behaviour.
 `body n kwargs inv att` is the outcome of the `att`-th attempt of the `inv`-th invocation (per run)
 of node `n` on `kwargs`; `dflt` is `get_default(**kwargs)`. Theorems quantify over arbitrary such
@@ -182,5 +186,7 @@ structure Program where
   dflt    : Node → Kwargs → Val
   inputKw : Kwargs
   poolsOk : Bool := true      -- pools needed by the DAG are registered and alive (`DAG._validate_pool_executors`)
+  /-- how many times the collaborators suspend (bare `await asyncio.sleep(0)`) inside the given callback -/
+  cbYield : Cb → Node → Nat := fun _ _ => 0
 
 end MLPE
